@@ -12,15 +12,24 @@
  *           bitrate ramp (free mode/bandwidth/channel switching incl. SILK's own bandwidth switch), encoder-made 40..120 ms
  *           multi-frame packets, low-delay application, complexity 0, CVBR/CBR, prediction / phase inversion disabled,
  *           encoder sampling rates 8..24 kHz
+ *   SWITCH  derived from the decision structure of opus_decode_frame(): transition := a non-empty packet whose mode crosses the
+ *           CELT-only boundary w.r.t. the previous mode, cancelled by a redundancy frame (previous packet's for ->CELT, this
+ *           packet's for CELT->); then branches on the first frame's length vs 5 ms / 2.5 ms and on the mode.  Every SILK / hybrid
+ *           TOC configuration (cfg 0..15: all bandwidths, 10/20/40/60 ms) x {mono,stereo} x CELT at EVERY duration 2.5/5/10/20 ms,
+ *           in both directions, each (a) as the encoder makes it when bytes are plentiful (forced-mode switch at >= 10 ms carries
+ *           the 5 ms redundancy frame; a caller duration change to < 10 ms makes SILK/hybrid jump to CELT with NO redundancy) and
+ *           (b) with the caller's max_data_bytes for the two packets at the switch just below what compute_redundancy_bytes()
+ *           needs, so the same switch comes WITHOUT redundancy; plus the switch right after a DTX period and right after a lost
+ *           packet (len 0 -> decode(NULL); PCM of those streams is advisory, PLC being non-normative).
  */
 #ifndef C03_STREAMS_H
 #define C03_STREAMS_H
 #include "corpus.h"
 
-enum { FAM_CFG=0, FAM_TRANS, FAM_REFRAME, FAM_FEAT, FAM_N };
-static const char *const fam_name[FAM_N]={"cfg","trans","reframe","feat"};
+enum { FAM_CFG=0, FAM_TRANS, FAM_REFRAME, FAM_FEAT, FAM_SWITCH, FAM_N };
+static const char *const fam_name[FAM_N]={"cfg","trans","reframe","feat","switch"};
 
-typedef struct { ccfg k; int nframes; int sig; } sseg;
+typedef struct { ccfg k; int nframes; int sig; int maxbytes; /* 0: ample */ int lose_last; /* replace the segment's last packet by a loss */ } sseg;
 typedef struct { int fs, ch, app; uint32_t seed; int nseg; sseg seg[12];
                  int fec, dtx, cbr, cvbr, complexity, pred_dis, phinv_dis, lsb; } sdesc;
 
@@ -75,10 +84,11 @@ static void s_encode(corpus *c,const char *name,const sdesc *d){
       if (sg->sig!=cursig){ sig_init(&g,sg->sig,d->fs,d->ch,d->seed); cursig=sg->sig; }
       for(i=0;i<sg->nframes;i++){ int n; opus_uint32 rng=0;
          sig_gen(&g,pcm,fsz);
-         n=ref_opus_encode(e,pcm,fsz,out,sizeof out);
+         n=ref_opus_encode(e,pcm,fsz,out,sg->maxbytes?sg->maxbytes:(int)sizeof out);
          if(n<0){ fprintf(stderr,"streams: frozen encoder failed %d (%s)\n",n,name); exit(2); }
          ref_opus_encoder_ctl(e,OPUS_GET_FINAL_RANGE(&rng));
-         corpus_push(c,out,n,sid,c->n-c->s[sid].first,rng,sg->k.dur_x10*48/10,0);
+         if (sg->lose_last && i==sg->nframes-1){ n=0; rng=0; }   /* lost packet: the decoders are called with NULL; final range of a PLC call is 0 */
+         corpus_push(c,out,n,sid,c->n-c->s[sid].first,rng,sg->k.dur_x10*48/10,n?0:9);
       }
    }
    c->s[sid].n=c->n-c->s[sid].first;
@@ -129,6 +139,11 @@ static const char *const ft_name[FT_N]={"fec-silk-wb-20","fec-silk-nb-60","fec-h
        "complexity0-silk-wb","complexity0-celt-fb","prediction-disabled-hybrid","phase-inversion-disabled-celt","cvbr-celt","lsb8-hybrid","enc-celt-40ms","enc-celt-60ms","enc-celt-80ms","enc-celt-100ms","enc-celt-120ms",
        "enc-silk-80ms","enc-silk-120ms","enc-hybrid-40ms","enc-hybrid-60ms","enc-hybrid-120ms","encoder-fs8k-auto","encoder-fs12k-auto","encoder-fs16k-auto","encoder-fs24k-auto"};
 
+/* SWITCH variants */
+enum { SW_TO_CELT=0, SW_TO_CELT_CAP, SW_FROM_CELT, SW_FROM_CELT_CAP, SW_DTX_TO_CELT, SW_LOSS_TO_CELT, SW_LOSS_FROM_CELT, SW_N };
+/* max_data_bytes just below the point where compute_redundancy_bytes() grants a redundancy frame (> 4+8*channels bytes):
+   cap = (avail*240/(240+48000/frame_rate)+base)/8 with avail = 8*max-2*base, base = 40*channels+20 */
+static int sw_cap(int dur_x10,int ch){ int fr=10000/dur_x10, base=40*ch+20, lim=4+8*ch, m; for(m=400;m>8;m--){ int avail=m*8-2*base; if((avail*240/(240+48000/fr)+base)/8<=lim) break; } return m-2; }
 static int frames_for(int ms,int dur_x10){ int n=(ms*10+dur_x10-1)/dur_x10; return n<2?2:n; }
 
 static void item_name(const sitem *it,char *nm,int n){
@@ -137,6 +152,8 @@ static void item_name(const sitem *it,char *nm,int n){
    case FAM_CFG: cfg_to_ccfg(it->cfg,&k); snprintf(nm,n,"cfg%02d %s r%d %s %dms",it->cfg,it->stereo?"stereo":"mono",it->ridx,sig_name[grid_sig(it->sig,it->stereo)],it->ms); break;
    case FAM_TRANS: snprintf(nm,n,"trans %s -> %s dur%d %s %dms",triple_name(it->a),triple_name(it->b),it->variant,sig_name[grid_sig(it->sig,1)],it->ms); break;
    case FAM_REFRAME: snprintf(nm,n,"reframe %s of cfg%02d %s r%d %s %dms",rv_name[it->variant],it->cfg,it->stereo?"stereo":"mono",it->ridx,sig_name[grid_sig(it->sig,it->stereo)],it->ms); break;
+   case FAM_SWITCH: { static const char *const vn[SW_N]={"A->celt","A->celt capped","celt->A","celt->A capped","A,dtx->celt","A,loss->celt","celt,loss->A"}; static const char *const dn[4]={"2.5","5","10","20"};
+      snprintf(nm,n,"switch %s: A=cfg%02d %s, celt %s ms, %s",vn[it->variant],it->a,it->stereo?"stereo":"mono",dn[it->b],sig_name[grid_sig(it->sig,it->stereo)]); } break;
    default: snprintf(nm,n,"feat %s %s %s %dms",ft_name[it->variant],it->stereo?"stereo":"mono",sig_name[grid_sig(it->sig,it->stereo)],it->ms); break;
    }
 }
@@ -177,6 +194,30 @@ static void item_make(const sitem *it,corpus *c){
       triple_to_ccfg(it->a,da,&d.seg[0].k); triple_to_ccfg(it->b,db,&d.seg[1].k);
       d.seg[0].nframes=frames_for(it->ms/2,da); d.seg[1].nframes=frames_for(it->ms/2,db); d.seg[0].sig=d.seg[1].sig=grid_sig(it->sig,1);
       if (it->variant==5){ d.seg[0].nframes=15; d.seg[1].nframes=frames_for(it->ms-300,db); }
+      s_encode(c,nm,&d);
+   } else if (it->fam==FAM_SWITCH){
+      static const int cd[4]={25,50,100,200}, cbw[4]={BWN,BWW,BWS,BWF};
+      int v=it->variant, durB=cd[it->b], sg=grid_sig(it->sig,it->stereo), nA,nB,to_celt=(v==SW_TO_CELT||v==SW_TO_CELT_CAP||v==SW_DTX_TO_CELT||v==SW_LOSS_TO_CELT), n=0;
+      ccfg A,B; sseg sa,sb;
+      cfg_to_ccfg(it->a,&A); A.ch_force=ch; A.bitrate=cfg_bitrate(A.mode,A.bw,ch,1);
+      memset(&B,0,sizeof B); B.mode=REF_MODE_CELT_ONLY; B.bw=cbw[(it->a+it->b)%4]; B.dur_x10=durB; B.ch_force=ch; B.bitrate=cfg_bitrate(B.mode,B.bw,ch,1);
+      /* -> CELT below 10 ms: the CALLER only shortens the frames; mode and bandwidth stay forced to A's, the encoder itself must jump to CELT */
+      if (to_celt && durB<100){ B.mode=A.mode; B.bw=A.bw; B.bitrate=cfg_bitrate(REF_MODE_CELT_ONLY,BWW,ch,1); }
+      nA=frames_for(160,A.dur_x10); nB=frames_for(100,durB);
+      memset(&sa,0,sizeof sa); memset(&sb,0,sizeof sb); sa.k=A; sa.nframes=nA; sa.sig=sg; sb.k=B; sb.nframes=nB; sb.sig=sg;
+      d.ch=ch; d.app=OPUS_APPLICATION_VOIP;
+      if (to_celt){
+         if (v==SW_DTX_TO_CELT){ d.dtx=1; sa.nframes=10; d.seg[n++]=sa; sa.sig=SIG_SILENCE; sa.nframes=35; d.seg[n++]=sa; }
+         else { if(v==SW_LOSS_TO_CELT) sa.lose_last=1; d.seg[n++]=sa; }
+         if (v==SW_TO_CELT_CAP){ sseg c2=sb; c2.nframes=2; c2.maxbytes=sw_cap(durB,ch); d.seg[n++]=c2; sb.nframes=nB-2; }
+         d.seg[n++]=sb;
+      } else {
+         if (v==SW_LOSS_FROM_CELT) sb.lose_last=1;
+         d.seg[n++]=sb;
+         if (v==SW_FROM_CELT_CAP){ sseg c2=sa; c2.nframes=2; c2.maxbytes=sw_cap(A.dur_x10,ch); d.seg[n++]=c2; sa.nframes=nA-2>0?nA-2:1; }
+         d.seg[n++]=sa;
+      }
+      d.nseg=n;
       s_encode(c,nm,&d);
    } else {
       int v=it->variant, sg=grid_sig(it->sig,it->stereo), ms=it->ms; ccfg a; memset(&a,0,sizeof a);
@@ -223,8 +264,9 @@ static void item_make(const sitem *it,corpus *c){
  *           FEAT all x {mono,stereo} x 1 signal
  * thorough: CFG 64 x 3 bitrates x 6 signals, 1 s; TRANS 306 x 5 schedules x 2 signals, 0.4 s; REFRAME 64 x variants x 3 bitrates;
  *           FEAT all x {mono,stereo} x 3 signals
+ * both    : SWITCH 16 SILK/hybrid configs x 4 CELT durations x {mono,stereo} x 7 variants (quick 568 streams, speech-like; thorough also multitone)
  */
-typedef struct { int cfg_rates, cfg_sigs, cfg_ms, trans_scheds, trans_sigs, trans_ms, ref_rates, ref_ms, feat_sigs, feat_ms, silkbw_ms; } grid_t;
+typedef struct { int cfg_rates, cfg_sigs, cfg_ms, trans_scheds, trans_sigs, trans_ms, ref_rates, ref_ms, feat_sigs, feat_ms, silkbw_ms, switch_sigs; } grid_t;
 static sitem *ITEMS; static int NITEMS;
 static void items_add(const sitem *it){ static int cap; if(NITEMS==cap){ cap=cap?cap*2:1024; ITEMS=realloc(ITEMS,cap*sizeof(sitem)); } ITEMS[NITEMS++]=*it; }
 static void items_build(const grid_t *G){
@@ -244,5 +286,12 @@ static void items_build(const grid_t *G){
       it.ridx = G->ref_rates==3? r : (cfg+st+v)%3; it.sig=(cfg+v)%6; items_add(&it); }
    for(v=0;v<FT_N;v++) for(st=0;st<2;st++) for(s=0;s<G->feat_sigs;s++){
       memset(&it,0,sizeof it); it.fam=FAM_FEAT; it.variant=v; it.stereo=st; it.sig = s==0?0:(s==1?1:5); it.ms=G->feat_ms; items_add(&it); }
+   /* SWITCH: A = every SILK / hybrid TOC configuration, CELT at every duration, every variant that applies (same in both tiers;
+      thorough adds a second signal) */
+   for(s=0;s<G->switch_sigs;s++) for(v=0;v<SW_N;v++) for(a=0;a<16;a++) for(b=0;b<4;b++) for(st=0;st<2;st++){
+      cfg_to_ccfg(a,&k);
+      if (v==SW_TO_CELT_CAP && b<2) continue;                                   /* below 10 ms there is never redundancy: same stream as SW_TO_CELT */
+      if ((v==SW_DTX_TO_CELT||v==SW_LOSS_TO_CELT||v==SW_LOSS_FROM_CELT) && k.dur_x10!=200) continue;
+      memset(&it,0,sizeof it); it.fam=FAM_SWITCH; it.a=a; it.b=b; it.variant=v; it.stereo=st; it.sig=s; it.ms=0; items_add(&it); }
 }
 #endif
